@@ -409,7 +409,7 @@ fn twin_round(r: &mut Rng) {
         chk!("duration_round_up", (x, sp), guard(|| x.duration_round_up(sp).map(stamp)), Ok(e(1)));
         chk!("duration_round", (x, sp), guard(|| x.duration_round(sp).map(stamp)), Ok(e(2)));
     }
-    if x.date() > NaiveDate::MIN && x.date() < NaiveDate::MAX { for dg in [0u16, 1, 2, 3, 5, 6, 8, 9, 10, u16::MAX] {
+    if x.date() > NaiveDate::MIN && x.date() < NaiveDate::MAX { for dg in [0u16, 1, 2, 3, 5, 6, 8, 9, 10, 255, 256, 257, 259, 264, 512, 515, u16::MAX] {
         let p = 10i128.pow(9 - dg.min(9) as u32); let f = x.time().nanosecond() as i128; let dd = f % p;
         chk!("trunc_subsecs", (x, dg), guard(|| inst(x.trunc_subsecs(dg))), Ok(inst(x) - dd));
         chk!("round_subsecs", (x, dg), guard(|| inst(x.round_subsecs(dg))), Ok(if dd == 0 { inst(x) } else if p - dd <= dd { inst(x) + p - dd } else { inst(x) - dd }));
